@@ -295,7 +295,20 @@ func genC14(t *core.Tape, tier string) *Scenario {
 	if byCancel {
 		sc.Notes["end_by_cancel"]++
 	}
-	if p.Kind == KBidi && !byCancel && !p.InterceptorErr && !p.protoRefused && len(p.ReqMsgs) > 0 && len(p.RespMsgs) > 0 && t.Bool(1, 6, "lockstep.readlimit") {
+	if !byCancel && t.Bool(1, 3, "live.ctx") {
+		// the caller's context is a server's request context: it can be
+		// cancelled, so the library watches it, but it outlives the call
+		p.LiveCtx = true
+		sc.Notes["cancellable_context_outlives_call"]++
+	}
+	if !byCancel && !p.InterceptorErr && !p.protoRefused && t.Bool(1, 10, "do.fails") {
+		// nothing answers at that address: Do fails, there is no response - and
+		// still nothing may be left behind
+		p.K.DoErr = errors.New("dial tcp 10.0.0.9:443: connect: connection refused")
+		p.doFails = true
+		sc.Notes["do_fails"]++
+	}
+	if p.Kind == KBidi && !byCancel && !p.InterceptorErr && !p.protoRefused && !p.doFails && len(p.ReqMsgs) > 0 && len(p.RespMsgs) > 0 && t.Bool(1, 6, "lockstep.readlimit") {
 		// Lock-step conversation (send, receive, send, receive, ..., close)
 		// with a client read limit that one of the responses exceeds: that
 		// Receive fails locally, and it must return although the handler is
@@ -373,6 +386,22 @@ func checkC14(w *World, st core.Status, r *RunResult) []Violation {
 		}
 		if st != core.Done {
 			continue // the hang itself is reported by the runner
+		}
+		if p.doFails {
+			// no exchange, no handler: what is decided is that every operation
+			// returned (the runner reports hangs), that failures are coded, that
+			// the call did not succeed, and - below - that nothing is left behind
+			r.Probes["do_failed_calls_terminated"]++
+			for _, op := range append(append([]OpRec{}, o.Ops...), o.OpsRcv...) {
+				var ce *connect.Error
+				if op.Err != nil && !errors.Is(op.Err, io.EOF) && (!errors.As(op.Err, &ce) || ce.Code() == 0) {
+					add("uncoded-error/do-failed", fmt.Sprintf("%s failed with %v", op.Op, op.Err))
+				}
+			}
+			if o.FinalSet && o.Final == nil {
+				add("success-without-a-server", "HTTPClient.Do failed, yet the call ended in success")
+			}
+			continue
 		}
 		ex := o.Call.Exchange()
 		cancelled := usedCancel(o)
